@@ -76,7 +76,10 @@ def build():
     lock = open(os.path.join(os.path.dirname(RSRC), ".replay.lock"), "w")
     fcntl.flock(lock, fcntl.LOCK_EX)
     try:
-        prepare()
+        try:
+            prepare()
+        except OSError as e:   # e.g. a partial scratch copy without Cargo.lock / crates: no replay binary, never an error of the check
+            raise RuntimeError("replay crate cannot be prepared for %s: %s" % (vunit.REPO, e))
         # scratch repository: start from the dependency artifacts already built for /repo (registry crates are
         # identical; only the path crates revm-primitives / revm-interpreter and verif-replay are rebuilt)
         if RTARGET != MAIN_RTARGET and not os.path.isdir(RTARGET) and os.path.isdir(os.path.join(MAIN_RTARGET, "release")):
@@ -139,9 +142,12 @@ def search_witness(pid, v, seed):
                 w = json.loads(ln[8:])
                 break
         note = p.stderr.strip().split("\n")[-3:]
+        m = re.search(r"search [^:]+: (\d+) evaluated", p.stderr)
+        evaluated = int(m.group(1)) if m else 0
     except subprocess.TimeoutExpired:
         note = ["search timed out"]
-    v["witness_search"] = {"cmd": f"{exe} search {fn} {seed}", "build_s": round(t1 - t0, 1), "search_s": round(time.time() - t1, 1), "log": note}
+    v["witness_search"] = {"cmd": f"{exe} search {fn} {seed}", "build_s": round(t1 - t0, 1), "search_s": round(time.time() - t1, 1), "log": note,
+                           "evaluated": locals().get("evaluated", 0)}
     return w
 
 
